@@ -30,7 +30,16 @@ shape it rewrites and refuses anything else):
       components, in order).
   R6  the struct: `futures: <mod>::Futures<A, …>` → `FutureArray<Fut, N>`, the tuple of `MaybeUninit<F::Output>` →
       `OutputArray<Fut::Output, N>`, `PollArray<{ <mod>::LEN }>` → `PollArray<N>`, `WakerArray<{ <mod>::LEN }>` →
-      `WakerArray<N>`; the constructor's struct literal is read field by field in the same way.
+      `WakerArray<N>`; the constructor's struct literal is read field by field in the same way.  In merge / zip / race / chain /
+      race_ok the children are fields of a helper struct or of the struct itself and become ONE array field; `completed: u8`
+      is read as a number; `Indexer::new(0 + 1 + … + 1)` (k ones) is `Indexer::new(N)`.
+  R8  `#[repr(usize)] enum Indexes { A, B, … }` lists the children in their order (checked), so `Indexes::F as usize` — and the
+      constants `<mod>::F` defined as that — is F's position; the dispatches `let stream_index = <mod>::Indexes::F as usize;
+      if stream_index == index { … }` (merge), `match index { <mod>::F => { … } … _ => unreachable!() }` (zip, chain: folded
+      behind `assert!(index < N)`) and `if i == Indexes::F as usize { … }` (race, race_ok) are folded as in R3.
+  R9  `v @ (Poll::Pending | Poll::Ready(Some(_))) => return v` (chain) is written as the two arms it stands for.
+  R10 `<iter>.filter(f).for_each(|(st, err)| { B })` (race_ok's destructor) is written as `for (st, err) in <iter>.filter(f) { B }`.
+  The arity of race_ok is the constant `RaceOk<k>: usize = 0 + 1 + … + 1` (checked, read as `N`).
 """
 import os, re, subprocess, sys, tempfile, json
 
